@@ -192,3 +192,71 @@ Theorem C14_bell_property : forall fuel c0 jm am vm p0 p1 v0 v1,
   0 < t -> bell_motion jm am vm p0 p1 v0 v1 c t.
 Proof. exact bell_gen_motion. Qed.
 Print Assumptions C14_bell_property.
+
+(* ================================================================================================ fuel sufficiency
+   The bisection loop of a_trajbell_gen in the ROUNDED model (coq/C14/BellFuel.v): at the instance Rnd_ops rnd of the same
+   Gallina terms (every + - * / sqrt followed by rnd, comparisons exact; Common/RoundOps.v) the loop never uses up its
+   fuel, for every rnd in which halving a format number above 2^-52 is exact (record halving_rnd), in particular for IEEE
+   binary64 round-to-nearest-even (rnd64 of Common/RoundFlocq.v, by Flocq) with any fuel >= 1077 - so with the fuel 1200
+   of the correspondence run.  Together with tie_a_trajbell_gen_inv (harness/C14/TieBellGen.v: regenerated function =
+   bell_gen_b for every instance and fuel, None iff BX_out_of_fuel) the function regenerated from the current C source
+   returns `Some _` at that instance for every finite am.  Overflow, infinities and NaN are outside the model (rnd is a
+   total function on R): am = +-inf, for which the C loop does not end, is excluded by |am| < 2^1024.
+   Non-vacuity: halving_rnd_id, bell_gen_fuel_binary64_am_1, bell_gen_fuel_binary64_am_max (BellFuel.v) and
+   C14_bell_fuel_example below (a request with 52 loop passes). *)
+From Coq Require Import ZArith.
+From LibaV Require Import Common.RoundOps Common.RoundFlocq C14.BellFuel.
+
+(* every continuing pass multiplies ac by A_REAL_C(0.5) exactly once - for every NumOps instance *)
+Theorem C14_bell_step_halves : forall (T : Type) (O : NumOps T) jm p v0 v1 c am ac c' am' ac',
+  bell_step O jm p v0 v1 c am ac = SCont c' am' ac' -> ac' = mul O ac (half O).
+Proof. exact (@bell_step_cont_ac). Qed.
+Print Assumptions C14_bell_step_halves.
+
+(* generic rounding: a format number ac <= 2^-52 * 2^j ends the loop within j + 1 passes *)
+Theorem C14_bell_loop_fuel : forall rnd, halving_rnd rnd ->
+  forall fuel j n jm p v0 v1 c am ac,
+  rnd ac = ac -> ac <= eps52 * 2 ^ j -> (j < fuel)%nat ->
+  match bell_loop (Rnd_ops rnd) fuel n jm p v0 v1 c am ac with LFail _ BX_out_of_fuel _ => False | _ => True end.
+Proof.
+  intros rnd H fuel j n jm p v0 v1 c am ac F B L.
+  pose proof (bell_loop_fuel rnd H fuel j n jm p v0 v1 c am ac F B L) as X. unfold loop_oof in X.
+  destruct (bell_loop (Rnd_ops rnd) fuel n jm p v0 v1 c am ac) as [c' k n'|c' k n']; [exact I|].
+  destruct k; try exact I. apply X. exact I.
+Qed.
+Print Assumptions C14_bell_loop_fuel.
+
+Theorem C14_bell_gen_fuel : forall rnd, halving_rnd rnd ->
+  forall fuel j c jm am vm p0 p1 v0 v1,
+  rnd am = am -> Rabs am <= eps52 * 2 ^ j -> (j < fuel)%nat ->
+  snd (fst (bell_gen_b (Rnd_ops rnd) fuel c jm am vm p0 p1 v0 v1)) <> BX_out_of_fuel.
+Proof. exact bell_gen_fuel. Qed.
+Print Assumptions C14_bell_gen_fuel.
+
+(* binary64: halving a format number above 2^-52 (in fact: of magnitude >= 2^-1021) is exact *)
+Theorem C14_halving_rnd_binary64 : halving_rnd rnd64.
+Proof. exact halving_rnd_binary64. Qed.
+Print Assumptions C14_halving_rnd_binary64.
+
+(* binary64: every finite am (a format number below the overflow threshold; subnormal, zero and negative included), every
+   other argument, every previous content of the context, every fuel >= 1077 *)
+Theorem C14_bell_gen_fuel_binary64 : forall fuel c jm am vm p0 p1 v0 v1,
+  rnd64 am = am -> Rabs am < IZR (2 ^ 1024) -> (1076 < fuel)%nat ->
+  snd (fst (bell_gen_b (Rnd_ops rnd64) fuel c jm am vm p0 p1 v0 v1)) <> BX_out_of_fuel.
+Proof. exact bell_gen_fuel_binary64. Qed.
+Print Assumptions C14_bell_gen_fuel_binary64.
+
+(* ... in particular the fuel the correspondence run uses (bell_fuel = 1200) *)
+Theorem C14_bell_gen_fuel_binary64_1200 : forall c jm am vm p0 p1 v0 v1,
+  rnd64 am = am -> Rabs am < IZR (2 ^ 1024) ->
+  snd (fst (bell_gen_b (Rnd_ops rnd64) bell_fuel c jm am vm p0 p1 v0 v1)) <> BX_out_of_fuel.
+Proof. exact bell_gen_fuel_binary64_1200. Qed.
+Print Assumptions C14_bell_gen_fuel_binary64_1200.
+
+(* non-vacuity: jm = am = vm = 1, p0 = p1 = 0, v0 = v1 = 0 at binary64: the loop halves ac 52 times (1 -> 2^-52) and the
+   generator leaves through `fail` with result 0 because `ac > A_REAL_EPSILON` became false *)
+Theorem C14_bell_fuel_example : forall c,
+  let r := bell_gen_b (Rnd_ops rnd64) bell_fuel c 1 1 1 0 0 0 0 in
+  snd (fst (fst r)) = 0 /\ snd (fst r) = BX_fail_loop /\ snd r = 52%nat.
+Proof. exact bell_gen_52_passes_binary64. Qed.
+Print Assumptions C14_bell_fuel_example.
